@@ -44,6 +44,14 @@ def main():
         rc, out = sh([PY, demo, wt], timeout=900)
         res["steps"]["demo_pristine_exit"] = rc
         rc, out = sh(["git", "-C", wt, "apply", os.path.abspath(os.path.join(src, "patch.diff"))])
+        if rc != 0:   # the tree has moved on (fix: commits) since the patch was written: try a 3-way merge
+            rc, out2 = sh(["git", "-C", wt, "apply", "--3way", os.path.abspath(os.path.join(src, "patch.diff"))])
+            res["steps"]["applied_3way"] = (rc == 0)
+            out += out2
+            if rc == 0:
+                sh(["git", "-C", wt, "reset", "-q"])
+                _, newdiff = sh(["git", "-C", wt, "diff"])
+                res["steps"]["rebased_patch"] = newdiff
         res["steps"]["patch_applies"] = (rc == 0)
         if rc != 0:
             res["steps"]["patch_err"] = out[-500:]
@@ -86,11 +94,16 @@ def main():
         if valid:
             dst = os.path.join("/verif/seeded", sid)
             os.makedirs(dst, exist_ok=True)
-            shutil.copy(os.path.join(src, "patch.diff"), dst)
+            if res["steps"].get("rebased_patch"):
+                open(os.path.join(dst, "patch.diff"), "w").write(res["steps"]["rebased_patch"])
+                shutil.copy(os.path.join(src, "patch.diff"), os.path.join(dst, "patch.orig-base.diff"))
+            else:
+                shutil.copy(os.path.join(src, "patch.diff"), dst)
             shutil.copy(demo, dst)
             meta2 = dict(meta)
             meta2["seed_id"] = sid
-            meta2["validated"] = {k: v for k, v in res["steps"].items() if k != "demo_patched_out"}
+            meta2["validated"] = {k: v for k, v in res["steps"].items() if k not in ("demo_patched_out", "rebased_patch")}
+            meta2["validated"]["repo_head"] = sh(["git", "-C", "/repo", "rev-parse", "--short", "HEAD"])[1].strip()
             meta2["ran"] = ("fresh worktree of /repo: demo.py on pristine (exit 0); git apply patch.diff; pinned 92 tests "
                             "(all pass); demo.py on patched (exit !=0); checks with VERIF_REPO=<patched worktree>")
             meta2["detected_by"] = {c: {"caught": r["caught"], "sigs": r["sigs"], "tier": tier} for c, r in res["checks"].items()}
@@ -98,6 +111,7 @@ def main():
     finally:
         sh(["git", "-C", "/repo", "worktree", "remove", "--force", wt])
         shutil.rmtree(wt, ignore_errors=True)
+    res["steps"].pop("rebased_patch", None)
     print(json.dumps(res, indent=1))
 
 
